@@ -407,6 +407,8 @@ func Validate(profile CertificateProfile, content CertificateContent) bool {
 	if profile.SubjectAttributes.Attributes != nil {
 		//reverse subject, since we are comparing against a string representation
 		subject := content.Subject
+		//work on a copy, the caller's subject must keep its order
+		subject = append(pkix.RDNSequence{}, subject...)
 		for i, j := 0, len(subject)-1; i < j; i, j = i+1, j-1 {
 			subject[i], subject[j] = subject[j], subject[i]
 		}
